@@ -46,6 +46,10 @@ def run(F, rep, tier):
     c03.type_names_are_not_values(F, rep)
     value_paths(F, rep)
     contradiction_info(F, rep)
+    # "no read of an uninitialised variable": a global is initialised before anything that mentions it runs - every mention
+    # is a dependency edge (the C11 instances)
+    import c11
+    c11.dependency_visit(F, rep)
 
 
 def copy_discipline(F, rep, only_declaration=False, only_generalised=False):
